@@ -43,6 +43,8 @@ def to_real(rf, cls=None):
 
 def _attrs_of(o):
     out = OrderedDict()
+    if not hasattr(o, 'ncattrs'):
+        return out
     for k in o.ncattrs():
         out[k] = getattr(o, k)
     return out
@@ -106,6 +108,9 @@ def wellformed(f):
         if tuple(v.shape) != want:
             out.append('variable %s%r shape %r != dimension lengths %r'
                        % (k, vd, tuple(v.shape), want))
+        if not hasattr(v, 'ncattrs'):
+            out.append('variable %s (%s) has no attribute interface (ncattrs)' % (k, type(v).__name__))
+            continue
         for a in v.ncattrs():
             try:
                 getattr(v, a)
